@@ -17,25 +17,25 @@ package jsonpath
 //@ spec pyHiN(s *syntaxSliceNegativeStepSubscript, n int) int = s.end.isOmitted ? 0 - 1 : pyClampN(s.end.number, n)
 
 //@ func (*syntaxSlicePositiveStepSubscript).getNormalizedValue
-//@   props C11 C03 C01 C08 C04 C05 C06 C20
+//@   props C11 C03 C01 C07 C08 C04 C05 C06 C20
 //@   requires srcLength >= 0
 //@   ensures value: ret == pyClampP(value, srcLength)
 //@   pure
 
 //@ func (*syntaxSlicePositiveStepSubscript).getLoopStart
-//@   props C11 C03 C01 C08 C04 C05 C06 C20
+//@   props C11 C03 C01 C07 C08 C04 C05 C06 C20
 //@   requires srcLength >= 0 && s != nil && s.start != nil
 //@   ensures value: ret == pyLoP(s, srcLength)
 //@   pure
 
 //@ func (*syntaxSlicePositiveStepSubscript).getLoopEnd
-//@   props C11 C03 C01 C08 C04 C05 C06 C20
+//@   props C11 C03 C01 C07 C08 C04 C05 C06 C20
 //@   requires srcLength >= 0 && s != nil && s.end != nil
 //@   ensures value: ret == pyHiP(s, srcLength)
 //@   pure
 
 //@ func (*syntaxSlicePositiveStepSubscript).getIndexes
-//@   props C11 C03 C01 C08 C04 C05 C06 C20
+//@   props C11 C03 C01 C07 C08 C04 C05 C06 C20
 //@   implements syntaxSubscript.getIndexes
 //@   unfold WFsub(this) ==> WFposDef(s)
 //@   ensures empty: (s.step.number <= 0 || pyLoP(s, srcLength) >= pyHiP(s, srcLength)) ==> len(ret) == 0
@@ -52,25 +52,25 @@ package jsonpath
 //@   loop 1 decreases loopEnd - i
 
 //@ func (*syntaxSliceNegativeStepSubscript).getNormalizedValue
-//@   props C11 C03 C01 C08 C04 C05 C06 C20
+//@   props C11 C03 C01 C07 C08 C04 C05 C06 C20
 //@   requires srcLength >= 0
 //@   ensures value: ret == pyClampN(value, srcLength)
 //@   pure
 
 //@ func (*syntaxSliceNegativeStepSubscript).getLoopStart
-//@   props C11 C03 C01 C08 C04 C05 C06 C20
+//@   props C11 C03 C01 C07 C08 C04 C05 C06 C20
 //@   requires srcLength >= 0 && s != nil && s.start != nil
 //@   ensures value: ret == pyLoN(s, srcLength)
 //@   pure
 
 //@ func (*syntaxSliceNegativeStepSubscript).getLoopEnd
-//@   props C11 C03 C01 C08 C04 C05 C06 C20
+//@   props C11 C03 C01 C07 C08 C04 C05 C06 C20
 //@   requires srcLength >= 0 && s != nil && s.end != nil
 //@   ensures value: ret == pyHiN(s, srcLength)
 //@   pure
 
 //@ func (*syntaxSliceNegativeStepSubscript).getIndexes
-//@   props C11 C03 C01 C08 C04 C05 C06 C20
+//@   props C11 C03 C01 C07 C08 C04 C05 C06 C20
 //@   implements syntaxSubscript.getIndexes
 //@   unfold WFsub(this) ==> WFnegDef(s)
 //@   ensures empty: (s.step.number >= 0 || pyLoN(s, srcLength) <= pyHiN(s, srcLength)) ==> len(ret) == 0
@@ -87,7 +87,7 @@ package jsonpath
 //@   loop 1 decreases i - loopEnd
 
 //@ func (*syntaxIndexSubscript).getIndexes
-//@   props C11 C03 C01 C08 C04 C05 C06 C20
+//@   props C11 C03 C01 C07 C08 C04 C05 C06 C20
 //@   implements syntaxSubscript.getIndexes
 //@   unfold WFsub(this) ==> WFindexDef(i)
 //@   ensures front: (0 <= i.number && i.number < srcLength) ==> len(ret) == 1 && ret[0] == i.number
@@ -95,7 +95,7 @@ package jsonpath
 //@   ensures none: (i.number >= srcLength || i.number + srcLength < 0) ==> len(ret) == 0
 
 //@ func (*syntaxWildcardSubscript).getIndexes
-//@   props C11 C03 C01 C08 C04 C05 C06 C20
+//@   props C11 C03 C01 C07 C08 C04 C05 C06 C20
 //@   implements syntaxSubscript.getIndexes
 //@   ensures all: len(ret) == srcLength && forall k :: 0 <= k && k < srcLength ==> ret[k] == k
 //@   loop 1 invariant 0 <= index && index <= srcLength
@@ -456,7 +456,7 @@ package jsonpath
 //@   ensures escaped(arg0) && extVal(ret0) && ret0 == afRes(fn, old(A_Val[arr(arg0)]), off(arg0), len(arg0)) && ret1 == afErr(fn, old(A_Val[arr(arg0)]), off(arg0), len(arg0))
 
 //@ func (*syntaxBasicNode).retrieveAnyValueNext
-//@   props C03 C04 C05 C06 C20 C12 C13 C16 C01 C08
+//@   props C03 C04 C05 C06 C20 C12 C13 C16 C01 C07 C08
 //@   decreases 3*hgt(i)
 //@   requires WFbasic(i) && extVal(nextSrc)
 //@   include retrieveFrame
@@ -468,7 +468,7 @@ package jsonpath
 //@   ensures leafacc: i.next == nil && i.accessorMode ==> ret == nil && len(container.result) == old(len(container.result)) + 1 && isType(elemAt(container.result, old(len(container.result))), Accessor) && asType(elemAt(container.result, old(len(container.result))), Accessor).Set == nil && cloFn(asType(elemAt(container.result, old(len(container.result))), Accessor).Get) == fnconst("(*syntaxBasicNode).retrieveAnyValueNext$1") && C_Val[cloBind(asType(elemAt(container.result, old(len(container.result))), Accessor).Get, 0)] == nextSrc
 
 //@ func (*syntaxBasicNode).retrieveMapNext
-//@   props C03 C04 C05 C06 C20 C12 C13 C16 C01 C08
+//@   props C03 C04 C05 C06 C20 C12 C13 C16 C01 C07 C08
 //@   decreases 3*hgt(i)
 //@   requires WFbasic(i) && errRT(i)
 //@   include retrieveFrame
@@ -482,7 +482,7 @@ package jsonpath
 //@   ensures leafacc: currentMap != nil && has(currentMap, key) && i.next == nil && i.accessorMode ==> ret == nil && len(container.result) == old(len(container.result)) + 1 && isType(elemAt(container.result, old(len(container.result))), Accessor) && accMapLoc(asType(elemAt(container.result, old(len(container.result))), Accessor), currentMap, key)
 
 //@ func (*syntaxBasicNode).retrieveListNext
-//@   props C03 C04 C05 C06 C20 C12 C13 C16 C01 C08
+//@   props C03 C04 C05 C06 C20 C12 C13 C16 C01 C07 C08
 //@   decreases 3*hgt(i)
 //@   requires WFbasic(i) && 0 <= index && index < len(currentList) && docArr(currentList)
 //@   include retrieveFrame
@@ -545,24 +545,24 @@ package jsonpath
 //@   pure
 
 //@ func (*syntaxRootIdentifier).retrieve
-//@   props C01 C08 C03 C04 C05 C06 C20 C12 C13
+//@   props C01 C07 C08 C03 C04 C05 C06 C20 C12 C13
 //@   implements syntaxNode.retrieve
 //@   unfold WFnode(this) ==> WFrootDef(i)
 
 //@ func (*syntaxCurrentRootIdentifier).retrieve
-//@   props C01 C08 C03 C04 C05 C06 C20 C12 C13
+//@   props C01 C07 C08 C03 C04 C05 C06 C20 C12 C13
 //@   implements syntaxNode.retrieve
 //@   unfold WFnode(this) ==> WFcurrentDef(i)
 
 //@ func (*syntaxChildSingleIdentifier).retrieve
-//@   props C01 C08 C03 C04 C05 C06 C20 C15 C16 C12 C13
+//@   props C01 C07 C08 C03 C04 C05 C06 C20 C15 C16 C12 C13
 //@   implements syntaxNode.retrieve
 //@   unfold WFnode(this) ==> WFsingleDef(i)
 //@   ensures mismatch: !isType(current, map[string]interface{}) ==> mismatch(ret, i.errorRuntime, "object", current) && len(container.result) == old(len(container.result))
 //@   before retrieveMapNext#1 assert key: arg3 == i.identifier && arg2 == asType(current, map[string]interface{})
 
 //@ func (*syntaxFilterFunction).retrieve
-//@   props C01 C08 C03 C04 C05 C06 C20 C14 C12 C13
+//@   props C01 C07 C08 C03 C04 C05 C06 C20 C14 C12 C13
 //@   implements syntaxNode.retrieve
 //@   unfold WFnode(this) ==> WFffuncDef(f)
 //@   before func#1 assert arg: arg0 == current
@@ -571,7 +571,7 @@ package jsonpath
 //@   ensures leaf: ffErr(f.function, current) == nil && f.next == nil && !f.accessorMode ==> ret == nil && len(container.result) == old(len(container.result)) + 1 && elemAt(container.result, old(len(container.result))) == ffRes(f.function, current)
 
 //@ func (*syntaxAggregateFunction).retrieve
-//@   props C01 C08 C03 C04 C05 C06 C20 C14 C12 C13
+//@   props C01 C07 C08 C03 C04 C05 C06 C20 C14 C12 C13
 //@   implements syntaxNode.retrieve
 //@   unfold WFnode(this) ==> WFafuncDef(f)
 // the aggregate sees the whole list of values its parameter path produced, or the elements of the single array
@@ -597,7 +597,7 @@ package jsonpath
 //@   assume len(ret) == IXn(this, srcLength) && (forall k {ret[k]} {IXv(this, srcLength, k)} :: 0 <= k && k < len(ret) ==> ret[k] == IXv(this, srcLength, k))
 
 //@ func (*syntaxChildWildcardIdentifier).retrieve
-//@   props C01 C08 C03 C04 C05 C06 C20 C15 C12 C13
+//@   props C01 C07 C08 C03 C04 C05 C06 C20 C15 C12 C13
 //@   implements syntaxNode.retrieve
 //@   unfold WFnode(this) ==> WFwildcardDef(i)
 //@   ensures mismatch: !isType(current, map[string]interface{}) && !isType(current, []interface{}) ==> mismatch(ret, i.errorRuntime, "object/array", current) && len(container.result) == old(len(container.result))
@@ -631,7 +631,7 @@ package jsonpath
 //@   loop 1 invariant mono: Kok(i.syntaxBasicNode) ==> (forall t {sumLof(i.syntaxBasicNode, root, srcList, t)} :: 0 <= t && t <= rangeindex1 ==> 0 <= sumLof(i.syntaxBasicNode, root, srcList, t) && sumLof(i.syntaxBasicNode, root, srcList, t) + Kn(i.syntaxBasicNode, root, A_Val[arr(srcList)][idxOf(off(srcList), t)]) <= len(container.result) - old(len(container.result)))
 
 //@ func (*syntaxChildMultiIdentifier).retrieve
-//@   props C01 C08 C03 C04 C05 C06 C20 C15 C12 C13
+//@   props C01 C07 C08 C03 C04 C05 C06 C20 C15 C12 C13
 //@   implements syntaxNode.retrieve
 //@   unfold WFnode(this) ==> WFmultiDef(i)
 //@   ensures mismatch: !isType(current, map[string]interface{}) && !(i.isAllWildcard && isType(current, []interface{})) ==> mismatch(ret, i.errorRuntime, "object", current) && len(container.result) == old(len(container.result))
@@ -1022,7 +1022,7 @@ package jsonpath
 //@   loop 1 invariant none: !hasValue ==> (forall j {elemAt(computedList, j)} :: 0 <= j && j <= rangeindex ==> elemAt(computedList, j) == emptyEntity)
 
 //@ func (*syntaxFilterQualifier).retrieve
-//@   props C01 C08 C03 C04 C05 C06 C20 C15 C12 C13
+//@   props C01 C07 C08 C03 C04 C05 C06 C20 C15 C12 C13
 //@   implements syntaxNode.retrieve
 //@   unfold WFnode(this) ==> WFfilterDef(f)
 //@   ensures mismatch: !isType(current, map[string]interface{}) && !isType(current, []interface{}) ==> mismatch(ret, f.errorRuntime, "object/array", current) && len(container.result) == old(len(container.result))
@@ -1066,7 +1066,7 @@ package jsonpath
 //@   loop 1 invariant mono: Kok(f.syntaxBasicNode) ==> (forall t {sumFof(f.query, f.syntaxBasicNode, root, srcList, t)} :: 0 <= t && t <= rangeindex1 ==> 0 <= sumFof(f.query, f.syntaxBasicNode, root, srcList, t) && sumFof(f.query, f.syntaxBasicNode, root, srcList, t) + (RHin(f.query, root, srcList, t) ? Kn(f.syntaxBasicNode, root, A_Val[arr(srcList)][idxOf(off(srcList), t)]) : 0) <= len(container.result) - old(len(container.result)))
 
 //@ func Parse$2
-//@   props C01 C08 C03 C04 C05 C06 C20
+//@   props C01 C07 C08 C03 C04 C05 C06 C20
 //@   requires root != nil && WFnode(root) && extVal(src)
 // C01: the function Parse returns yields exactly the result list of the root node on (src, src), and fails exactly when it is empty
 //@   ensures exact: RLok(root) ==> ((ret1 == nil) <==> RLn(root, src, src) > 0) && (ret1 == nil ==> len(ret0) == RLn(root, src, src) && (forall i {RLv(root, src, src, i)} :: 0 <= i && i < RLn(root, src, src) ==> ret0[i] == RLv(root, src, src, i)))
